@@ -286,6 +286,39 @@ static value run_step(const value& st, std::map<int, std::unique_ptr<VM>>& vms)
         return out;
     }
     if (op == "drop") { vms.erase(vid); return out; }
+    if (op == "parallel")
+    {
+        // Every job is a list of steps run on its own thread against its own set of VMs; all threads start together.
+        auto& jobs = st["jobs"];
+        size_t n = jobs.size();
+        std::vector<value> results(n);
+        std::vector<std::thread> threads;
+        std::atomic<size_t> ready{ 0 };
+        for (size_t j = 0; j < n; j++)
+        {
+            results[j] = value::arr();
+            threads.emplace_back([&, j]() {
+                std::map<int, std::unique_ptr<VM>> local;
+                ready.fetch_add(1);
+                while (ready.load() < n) sched_yield();
+                auto& steps = jobs.at(j)["steps"];
+                long long reps = jobs.at(j)["repeat"].i64(1);
+                for (long long rep = 0; rep < reps; rep++)
+                {
+                    for (size_t i = 0; i < steps.size(); i++)
+                    {
+                        auto r = run_step(steps.at(i), local);
+                        if (rep == reps - 1) results[j].push(r);
+                    }
+                }
+            });
+        }
+        for (auto& t : threads) t.join();
+        auto arr = value::arr();
+        for (auto& r : results) arr.push(r);
+        out.set("jobs", arr);
+        return out;
+    }
     {
         bool handled = false;
         auto r = step_extra(op, st, vms, handled);
@@ -527,6 +560,7 @@ int main(int argc, char** argv)
                 res.push(run_step(steps.at(i), vms));
                 if (g_exit_after_case) break;
             }
+            if (c["exit_after"].boolean(false)) g_exit_after_case = true;      // the next case gets a fresh process
             if (g_exit_after_case) { vms_p.release(); /* a lost thread still runs inside one of these VMs */ }
             else api_reset();
         }
